@@ -354,8 +354,8 @@ control("C02", "ChangingIndex fix reverted",
         [(FA, "            scalar = Scalar(self.GetQuantity(), value)", "            scalar = Scalar(value, self.GetUnit())")], "C02.R4")
 control("C02", "CreateCopy with a new unit forgets the category",
         [(A, "                    return self.CreateWithQuantity(\n                        ObtainQuantity(unit, self._quantity.GetCategory()), value=value, **kwargs\n                    )", "                    return self.CreateWithQuantity(ObtainQuantity(unit), value=value, **kwargs)")], "C02.R4")
-control("C02", "_ConvertWithExp multiplies the plain ratio per power",
-        [(UD, "        value = math.pow(value, 1.0 / from_exp)  # Convert from the exponent\n        value = self.Convert(quantity_type, from_unit, to_unit, value)\n        ret = math.pow(value, to_exp)", "        value = self.Convert(quantity_type, from_unit, to_unit, value)\n        ret = math.pow(value, to_exp)")], "C02.R1")
+control("C02", "_ConvertWithExp takes the root after converting",
+        [(UD, "        value = math.pow(value, 1.0 / from_exp)  # Convert from the exponent\n        value = self.Convert(quantity_type, from_unit, to_unit, value)\n        ret = math.pow(value, to_exp)", "        value = self.Convert(quantity_type, from_unit, to_unit, value)\n        value = math.pow(value, 1.0 / from_exp)\n        ret = math.pow(value, to_exp)")], "C02.R1")
 # ------------------------------------------------------------------------------------------ running
 def _apply(edits):
     overlay = {}
